@@ -110,6 +110,7 @@ type rpcResult struct {
 	fails     []vh.Failure
 	coalesced int
 	done      int
+	skipped   bool
 }
 
 func (c rpcConfig) class(what string) string {
@@ -147,8 +148,8 @@ func runRPC(cfg rpcConfig) (res rpcResult) {
 	if err := server.RegisterName("S", svc); err != nil {
 		panic(err)
 	}
-	scodec := rpcOf(cfg.codec).ServerCodec(srv, h)
-	ccodec := rpcOf(cfg.codec).ClientCodec(cli, h)
+	scodec := rpcOf(cfg.codec).ServerCodec(wrapConn(cfg.transport, srv, cfg.seed), h)
+	ccodec := rpcOf(cfg.codec).ClientCodec(wrapConn(cfg.transport, cli, cfg.seed+1), h)
 	served := make(chan struct{})
 	go func() { server.ServeCodec(scodec); close(served) }()
 	client := rpc.NewClientWithCodec(ccodec)
@@ -314,7 +315,7 @@ func closeUnblocks(cfg rpcConfig) (fails []vh.Failure) {
 	defer srvRaw.Close()
 	srv := &countConn{ReadWriteCloser: srvRaw}
 	h := newHandle(cfg.codec, cfg.rbs, cfg.wbs)
-	sc := rpcOf(cfg.codec).ServerCodec(srv, h)
+	sc := rpcOf(cfg.codec).ServerCodec(wrapConn(cfg.transport, srv, cfg.seed), h)
 	got := make(chan error, 1)
 	go func() { var hd rpc.Request; got <- sc.ReadRequestHeader(&hd) }()
 	time.Sleep(300 * time.Microsecond)
